@@ -1397,8 +1397,9 @@ def install(eng: Engine, resolver):
     add(r'^<(futures::futures_channel::mpsc::)?(Unbounded)?Sender<.*> as SinkExt<.*>>::send$', m_sink_send)
     add(r'^<&mut (futures::futures_channel::mpsc::)?(Unbounded)?Receiver<.*> as Stream>::poll_next$', m_rx_poll_next)
     # the same through a generic parameter (`fn payload_stream<S: Stream>(rx: S)`): decided by the value that is polled
-    add(r'^<(&mut )?[A-Z]\w* as (futures::)?Stream>::poll_next$', m_rx_poll_next)
-    add(r'^<(&mut )?[A-Z]\w* as (futures::)?Stream>::poll_next$', m_flat_map_poll_next)
+    add(r'^<.* as (futures::)?SinkExt<.*>>::send$', m_sink_send)
+    add(r'^<.* as (futures::)?Stream>::poll_next$', m_rx_poll_next)
+    add(r'^<.* as (futures::)?Stream>::poll_next$', m_flat_map_poll_next)
     add(r'^<(futures::futures_channel::mpsc::)?(Unbounded)?Receiver<.*> as (futures::)?StreamExt>::ready_chunks$', m_ready_chunks)
     add(r'^<(futures::stream::)?ReadyChunks<.*> as (futures::)?StreamExt>::flat_map::<', m_flat_map_iter)
     add(r'^<&mut (futures::stream::)?FlatMap<.*> as Stream>::poll_next$', m_flat_map_poll_next)
